@@ -32,7 +32,7 @@ func (c17) Rule() string {
 		"seeded (NextOwn): k uniform 1..5, lengths <= 300 (thorough <= 5000) biased to multiples of 70 +-1 and 0, random kinds, descriptions over bytes 32..126 and tab (no line breaks), residues over 33..126 minus '>' or a DNA alphabet. " +
 		"Oracle: WriteSeq returns no error; the bytes written for each record are '>'+desc+LF followed by the residues in lines of exactly 70 columns (last line shorter), each ended by one LF (zero residues: empty line or nothing; exact multiple of 70: an extra blank line is tolerated); reading the LF text and the CRLF twin yields exactly k records, in order, each with the same description and the same residues when looked at after the whole stream was scanned, and Err()==nil; for GenBank inputs desc == Version + [':'(head+1)'-'tail] + ' ' + Definition and residues == the record's residues. " +
 		"Outside the quantifier and never generated: descriptions/versions/definitions containing LF or CR, residues containing '>' or white space, wrap-around slices. " +
-		"CLI layer: gts clear|reverse|complement|select gene|sort -F fasta --no-cache on streams of 1..3 generated GenBank records (lengths on the 70-column boundaries; CONTIG-only records for clear): the text is one FASTA record per input record with description VERSION+' '+DEFINITION and the residues the command implies in the exact layout, and fed back through gts clear -F fasta reads back the same. " +
+		"CLI layer: gts clear|reverse|complement|select gene|sort -F fasta --no-cache on streams of 1..3 generated GenBank records (lengths on the 70-column boundaries; CONTIG-only records for clear): the text is one FASTA record per input record with description VERSION+' '+DEFINITION and the residues the command implies in the exact layout, and fed back through gts clear -F fasta reads back the same; with -o name.{gb,genbank,fasta,txt,} the file holds the same bytes; for the other record-writing subcommands (delete, extract, rotate, split, insert, define, search, join, select, pick, sort) -F fasta prints well-formed FASTA, -F genbank prints GenBank, and -o writes exactly what stdout would get, whatever the extension; every third case also with the cache on. " +
 		"non-trivial: the stream has >= 2 records or a record longer than one line (n > 70); distinct: canonical case text (kinds, descriptions, lengths, residue generator parameters, writer)."
 }
 
@@ -48,7 +48,7 @@ func (c17) RequiredBuckets(tier string) []string {
 		"writer:fasta", "writer:auto",
 		"alphabet:single-byte-record", "residues:cyclic-alphabet", "residues:random",
 		"empty-record-not-last", "multiple-of-70-not-last",
-		"cli:fasta clear", "cli:fasta reverse", "cli:fasta complement", "cli:fasta select", "cli:fasta sort", "cli:fasta pick", "cli:fasta -o", "cli:fasta cache-on", "cli:fasta stream", "cli:fasta len%70=0", "cli:fasta CONTIG-only record",
+		"cli:fasta clear", "cli:fasta reverse", "cli:fasta complement", "cli:fasta select", "cli:fasta sort", "cli:fasta pick", "cli:fasta -o", "cli:fasta cache-on", "cli:plumbing delete", "cli:plumbing extract", "cli:plumbing insert", "cli:plumbing split", "cli:plumbing join", "cli:plumbing search", "cli:fasta stream", "cli:fasta len%70=0", "cli:fasta CONTIG-only record",
 	}
 }
 
